@@ -1,11 +1,17 @@
-//go:build !verif
+//go:build verif
 
+// Verification build of ngsetup.go (build tag "verif"): identical to the untagged file, except that
+// ConnectToAmf adopts an already connected socket inherited from the parent process when the
+// environment variable STGUTG_VERIF_N2_FD names its descriptor, and logs its arguments to the file
+// named by STGUTG_VERIF_CONNECT_LOG. Without STGUTG_VERIF_N2_FD it dials SCTP exactly as before.
 package tglib
 
 import (
+	"encoding/json"
 	"fmt"
 	"net"
 	"os"
+	"strconv"
 
 	"github.com/ishidawataru/sctp"
 )
@@ -39,6 +45,20 @@ func getNgapIp(amfIP, ranIP string, amfPort, ranPort int) (amfAddr, ranAddr *sct
 }
 
 func ConnectToAmf(amfIP, stgIP string, amfPort, stgPort int) (*sctp.SCTPConn, error) {
+	if fdStr := os.Getenv("STGUTG_VERIF_N2_FD"); fdStr != "" {
+		if logPath := os.Getenv("STGUTG_VERIF_CONNECT_LOG"); logPath != "" {
+			if f, err := os.OpenFile(logPath, os.O_CREATE|os.O_APPEND|os.O_WRONLY, 0644); err == nil {
+				line, _ := json.Marshal(map[string]interface{}{"amf_ip": amfIP, "stg_ip": stgIP, "amf_port": amfPort, "stg_port": stgPort})
+				f.Write(append(line, '\n'))
+				f.Close()
+			}
+		}
+		fd, err := strconv.Atoi(fdStr)
+		if err != nil {
+			return nil, fmt.Errorf("STGUTG_VERIF_N2_FD: %v", err)
+		}
+		return sctp.NewSCTPConn(fd, nil), nil
+	}
 	amfAddr, ranAddr, err := getNgapIp(amfIP, stgIP, amfPort, stgPort)
 	if err != nil {
 		return nil, err
